@@ -14,6 +14,8 @@ class Stored(object):
         self.cols = dict(a["cols"])
         self.seen = {k: {str(v)} for k, v in a["cols"].items()}     # values seen per column
         self.attrs = {k: set(v) for k, v in a["attrs"].items()}
+        self.raw = {k: list(v) for k, v in a["attrs"].items()}       # as written, while nothing was merged into it
+        self.merged = False
         self.parents = set(a["parents"])
 
 
@@ -61,6 +63,7 @@ class Ref(object):
                 if all(str(st.cols[c]) == str(a["cols"][c]) for c in COLNAMES if c not in self.fmf):
                     if cid != key:
                         self.third_into_suffix = True
+                    st.merged = True
                     for k, v in a["attrs"].items():
                         st.attrs.setdefault(k, set()).update(v)
                     for c in self.fmf:
@@ -82,3 +85,9 @@ class Ref(object):
                 cols[c] = frozenset(st.seen[c]) if c in self.fmf else frozenset([str(st.cols[c])])
             out[fid] = (cols, {k: frozenset(v) for k, v in st.attrs.items()}, frozenset(st.parents))
         return out
+
+    def merged_ids(self):
+        return {fid for fid, st in self.store.items() if st.merged}
+
+    def raw_attrs(self, fid):
+        return self.store[fid].raw
